@@ -499,6 +499,7 @@ Ltac bool_norm :=
          | H : True |- _ => clear H
          end.
 Ltac fin := open_inv; unfold samecb, samec, same, RE.resumable in *; simp_st; split_ands; bool_norm;
+            rw_proj; simp_fn;
             repeat split; intros; simp_st; rw_proj; simp_fn; fin0.
 Ltac ev_eqb_in H :=
   repeat match type of H with
@@ -541,9 +542,12 @@ Proof.
       repeat (bm_hyp H); leaf IH. }
   { (* CTop *)
     eqb_cases H; repeat (bm_hyp H); try (ev_eqb_in H); leaf IH.
-    destruct (ctl_exn e) eqn:Ec;
-      [ left; apply HG; exists e; split; [apply Hhook; reflexivity | exact Ec]
-      | right; intros; reflexivity ]. }
+    match goal with
+    | Hh : forall x, Some ?e = Some x -> hook_raises MPause x |- _ =>
+        destruct (ctl_exn e) eqn:Ec;
+        [ left; apply HG; exists e; split; [apply Hh; reflexivity | exact Ec]
+        | right; intros; reflexivity ]
+    end. }
   { (* CAfterSleep *)
     repeat (bm_hyp H); leaf IH.
     match goal with
@@ -705,10 +709,10 @@ Lemma step_permit s s' o :
 Proof.
   intros Hsp. step_intro HI H A1.
   cbn [spurious_permit] in Hsp. destruct (pc s) eqn:Epc; sleaf.
-  destruct H8 as [g|H8]; [left; exact g|].
-  destruct (interrupted s) eqn:Ei; [|right; intros [Hx _]; discriminate Hx].
+  match goal with H8 : G \/ _ |- _ => destruct H8 as [g|H8]; [left; exact g|];
+  destruct (interrupted s) eqn:Ei; [|right; intros [Hx _]; discriminate Hx];
   destruct (state s) eqn:Est; try discriminate A1;
-    try (right; intros HPR; destruct (H8 HPR) as [(Hx & _)|[(Hx & _)|[]]]; discriminate Hx).
+    try (right; intros HPR; destruct (H8 HPR) as [(Hx & _)|[(Hx & _)|[]]]; discriminate Hx) end.
   left; apply Hsp; reflexivity.
 Qed.
 
@@ -1072,14 +1076,3 @@ End Reach.
 
 End Inv.
 
-Print Assumptions reach_inv.
-Print Assumptions step_inv.
-Print Assumptions pc_state_typing.
-Print Assumptions quiescent_state.
-Print Assumptions paused_is_resumable.
-Print Assumptions done_is_idle.
-Print Assumptions stacks_aligned.
-Print Assumptions cleanup_never_stranded.
-Print Assumptions cbody_no_assert_exit.
-Print Assumptions interrupted_idle_cause_full.
-Print Assumptions interrupted_idle_cause.
